@@ -485,6 +485,12 @@ def facts_at(ctx: Ctx, f: FunctionInfo, n: Node) -> List[Tuple[str, ast.AST, int
                     tg = dn.ast.targets if isinstance(dn.ast, ast.Assign) else [dn.ast.target]
                     if len(tg) == 1 and isinstance(tg[0], ast.Name) and same_operands(dn.ast.value, d, at):
                         add(pol, dn.ast.value, d, depth + 1)
+                    elif len(tg) == 1 and isinstance(tg[0], (ast.Tuple, ast.List)) and isinstance(dn.ast.value, ast.Call):
+                        # `a, flag = helper(...)` with the helper analysed in place and a single `return x, y`
+                        rets = g.inline_returns.get(id(dn.ast.value), [])
+                        idx = next((i for i, t in enumerate(tg[0].elts) if isinstance(t, ast.Name) and t.id == e.id), None)
+                        if idx is not None and len(rets) == 1 and isinstance(rets[0][0], ast.Tuple) and len(rets[0][0].elts) == len(tg[0].elts):
+                            add(pol, rets[0][0].elts[idx], rets[0][1], depth + 1)
 
     for b in g.nodes:
         if b.kind != "branch" or b.ast is None or b.id == n.id or b.id not in dom[n.id]:
@@ -505,13 +511,19 @@ def facts_at(ctx: Ctx, f: FunctionInfo, n: Node) -> List[Tuple[str, ast.AST, int
 
 def null_edges(g: CFG, var: str) -> Set[Tuple[int, int]]:
     """CFG edges taken only when variable `var` is None (or falsy): `var is None` true, `var is not None` false,
-    `if var` false."""
+    `if var` false - also through a flag with a single definition (`present = var is not None ... if present:`)."""
     out: Set[Tuple[int, int]] = set()
+    flag_defs: Dict[str, List[ast.AST]] = {}
+    for n in g.nodes:
+        if n.kind == "stmt" and isinstance(n.ast, ast.Assign) and len(n.ast.targets) == 1 and isinstance(n.ast.targets[0], ast.Name):
+            flag_defs.setdefault(n.ast.targets[0].id, []).append(n.ast.value)
     for b in g.nodes:
         if b.kind != "branch" or b.ast is None:
             continue
         lab = None
         a = b.ast
+        if isinstance(a, ast.Name) and a.id != var and len(flag_defs.get(a.id, [])) == 1 and isinstance(flag_defs[a.id][0], ast.Compare):
+            a = flag_defs[a.id][0]
         if isinstance(a, ast.Compare) and len(a.ops) == 1 and dotted(a.left) == var \
                 and isinstance(a.comparators[0], ast.Constant) and a.comparators[0].value is None:
             lab = "true" if isinstance(a.ops[0], (ast.Is, ast.Eq)) else ("false" if isinstance(a.ops[0], (ast.IsNot, ast.NotEq)) else None)
